@@ -56,6 +56,10 @@ def is_int(T):
     return len(T) == 2 and isinstance(T[0], bool)
 
 
+class CHorizon(CUnsupported):
+    """The step horizon was exceeded (a loop that does not terminate within the bound)."""
+
+
 class Cell:
     __slots__ = ("T", "v", "init", "assigned", "const")
 
@@ -128,7 +132,7 @@ class World:
 
 
 class Interp:
-    def __init__(self, routines=None, D=frozenset(), max_steps=200000):
+    def __init__(self, routines=None, D=frozenset(), max_steps=20000):
         self.routines = routines or {}
         self.D = D
         self.max_steps = max_steps
@@ -139,6 +143,7 @@ class Interp:
         Returns the dict of top-level locals at the end (name -> (T, value) or None if unset)."""
         self.w = world
         self.steps = 0
+        self.hc = {}
         self.scopes = [{}]
         self.preset = set(locals_init or ())
         for n, (T, v) in (locals_init or {}).items():
@@ -158,6 +163,7 @@ class Interp:
         """Stand-alone call (for checking sub-routines directly): args are python ints / names."""
         self.w = world
         self.steps = 0
+        self.hc = {}
         self.scopes = [{}]
         return self.invoke(r, args)
 
@@ -177,39 +183,93 @@ class Interp:
 
     def declare(self, name, T, const=False):
         sc = self.scopes[-1]
+        if name in sc and name not in getattr(self, "preset", ()):
+            raise CUnsupported("redeclaration of %s in one scope (not valid C)" % name)
         c = Cell(T, 0, False, const)
         sc[name] = c
         return c
+
+    # ------------------------------------------------------------------ deviation "hybrid-eager"
+    # The compiler turns every value-producing operation with a side effect (postfix ++/--, call of
+    # a sub-routine, statement-expression) into a temporary that is computed in an effect sequenced
+    # *before the statement that consumes it*, in creation order (children first, left to right).
+    # This equals C wherever C evaluates the operation exactly once per execution of the statement;
+    # it differs for arms of ?: (only a statement-expression that is directly an arm is guarded, and
+    # only by the innermost condition), right operands of && and ||, and loop conditions (computed
+    # once, before the loop initialiser).  Under the deviation the reference evaluates them that way.
+    def is_hybrid(self, e):
+        k = e[0]
+        if k == "post" or k == "stmtexpr":
+            return True
+        if k == "call":
+            f = cparse.strip_paren(e[1])
+            return f[0] == "id" and (f[1] in self.routines or f[1] in ("get_npc",))
+        return False
+
+    def hoist(self, e, keys):
+        """Pre-evaluates the hybrids inside expression e (bottom-up, left to right)."""
+        if not isinstance(e, tuple) or not e or not isinstance(e[0], str):
+            return
+        k = e[0]
+        if k == "cond":
+            self.hoist(e[1], keys)
+            for arm, want in ((e[2], True), (e[3], False)):
+                a = cparse.strip_paren(arm)
+                if a[0] == "stmtexpr":
+                    # BRANCH(cond, statements, EMPTY): guarded by this condition only
+                    c = self.truth(self.ev(e[1]))
+                    if c == want:
+                        self.hc[id(a)] = self.ev_uncached(a)
+                    else:
+                        self.hc[id(a)] = (("void",), None)
+                    keys.append(id(a))
+                else:
+                    self.hoist(arm, keys)
+            return
+        if k == "stmtexpr":
+            self.hc[id(e)] = self.ev_uncached(e)
+            keys.append(id(e))
+            return
+        for x in e[1:]:
+            if isinstance(x, tuple):
+                self.hoist(x, keys)
+            elif isinstance(x, list):
+                for y in x:
+                    self.hoist(y, keys)
+        if self.is_hybrid(e):
+            self.hc[id(e)] = self.ev_uncached(e)
+            keys.append(id(e))
+
+    def ev_uncached(self, e):
+        return getattr(self, "e_" + e[0])(e)
+
+    def with_hoist(self, exprs, fn):
+        if "hybrid-eager" not in self.D:
+            return fn()
+        keys = []
+        for e in exprs:
+            if e is not None:
+                self.hoist(e, keys)
+        try:
+            return fn()
+        finally:
+            for k in keys:
+                self.hc.pop(k, None)
 
     # ------------------------------------------------------------------ statements
     def tick(self):
         self.steps += 1
         if self.steps > self.max_steps:
-            raise CUnsupported("step horizon")
+            raise CHorizon("step horizon")
 
     def stmt(self, s):
         k = s[0]
         if k == "expr":
-            self.ev(s[1])
+            self.with_hoist([s[1]], lambda: self.ev(s[1]))
         elif k == "decl":
-            for (name, init, tt) in s[3]:
-                if init is None and len(self.scopes) == 1 and name in getattr(self, "preset", ()):
-                    if self.scopes[0][name].T != tt:
-                        raise CUnsupported("preset input %s declared with another type" % name)
-                    continue  # harness input: the declaration keeps the preset value
-                if not is_int(tt):
-                    if tt[0] == "float":
-                        c = self.declare(name, tt)
-                        if init is not None:
-                            v = self.ev(init)
-                            c.v, c.init = self.to_float(v, tt), True
-                        continue
-                    raise CUnsupported("declaration of type %r" % (tt,))
-                c = self.declare(name, tt, "const" in s[2])
-                if init is not None:
-                    v = self.ev(init)
-                    c.v = self.convert(v, tt, "init")
-                    c.init = True
+            if "hybrid-eager" in self.D and any(init is not None for (_n, init, _t) in s[3]):
+                return self.with_hoist([init for (_n, init, _t) in s[3]], lambda: self.stmt_decl(s))
+            self.stmt_decl(s)
         elif k == "empty":
             pass
         elif k == "block":
@@ -221,13 +281,17 @@ class Interp:
                 self.scopes.pop()
         elif k == "if":
             self.tick()
-            if self.truth(self.ev(s[1])):
+            if self.with_hoist([s[1]], lambda: self.truth(self.ev(s[1]))):
                 self.stmt(s[2])
             elif s[3] is not None:
                 self.stmt(s[3])
         elif k == "for":
             self.scopes.append({})
+            frozen = []
             try:
+                if "hybrid-eager" in self.D and s[2] is not None:
+                    # hybrids of the loop condition: computed once, before the initialiser
+                    self.hoist(s[2], frozen)
                 if s[1] is not None:
                     self.stmt(s[1])
                 while True:
@@ -241,8 +305,10 @@ class Interp:
                     except ContinueEx:
                         pass
                     if s[3] is not None:
-                        self.ev(s[3])
+                        self.with_hoist([s[3]], lambda: self.ev(s[3]))
             finally:
+                for k_ in frozen:
+                    self.hc.pop(k_, None)
                 self.scopes.pop()
         elif k == "while":
             while True:
@@ -277,6 +343,26 @@ class Interp:
         else:
             raise CUnsupported("statement %s" % k)
 
+    def stmt_decl(self, s):
+        for (name, init, tt) in s[3]:
+            if init is None and len(self.scopes) == 1 and name in getattr(self, "preset", ()):
+                if self.scopes[0][name].T != tt:
+                    raise CUnsupported("preset input %s declared with another type" % name)
+                continue  # harness input: the declaration keeps the preset value
+            if not is_int(tt):
+                if tt[0] == "float":
+                    c = self.declare(name, tt)
+                    if init is not None:
+                        v = self.ev(init)
+                        c.v, c.init = self.to_float(v, tt), True
+                    continue
+                raise CUnsupported("declaration of type %r" % (tt,))
+            c = self.declare(name, tt, "const" in s[2])
+            if init is not None:
+                v = self.ev(init)
+                c.v = self.convert(v, tt, "init")
+                c.init = True
+
     # ------------------------------------------------------------------ conversions
     def convert(self, tv, T, ctx=""):
         """C conversion of a typed value to integer type T (6.3.1.3; wrap-around for signed)."""
@@ -304,6 +390,10 @@ class Interp:
 
     # ------------------------------------------------------------------ expressions
     def ev(self, e):
+        if self.hc:
+            r = self.hc.get(id(e))
+            if r is not None:
+                return r
         return getattr(self, "e_" + e[0])(e)
 
     def e_paren(self, e):
@@ -513,6 +603,12 @@ class Interp:
             x = wrap(va, R)
             cnt = vb
             if cnt < 0 or cnt >= promote(TA)[1]:
+                if "hybrid-eager" in self.D:
+                    # code C would not have executed (an unselected ?: arm) is executed by the IL:
+                    # an over-wide RzIL shift yields zero / the fill bits
+                    if op == "<<":
+                        return (R, 0)
+                    return (R, -1 if (R[0] and x < 0) else 0)
                 raise CUndefined("shift count %d for width %d" % (cnt, promote(TA)[1]))
             if op == "<<":
                 return (R, wrap(x << cnt, R))
@@ -822,3 +918,159 @@ def _regfield_names(self):
 
 
 World.regfield_names = _regfield_names
+
+
+# --------------------------------------------------------------------------------------
+# static detection of unsequenced modification (C11 6.5p2): conservative, per full expression
+
+
+class _Conflict(Exception):
+    pass
+
+
+def _rw(e, by_ref):
+    """-> (reads, writes) of object names in expression e; raises _Conflict."""
+    k = e[0]
+    if k == "id":
+        return ({e[1]}, set())
+    if k in ("num", "fnum", "str", "sizeof_e", "sizeof_t", "complit"):
+        return (set(), set())
+    if k == "paren":
+        return _rw(e[1], by_ref)
+    if k == "post" or (k == "un" and e[1] in ("++", "--")):
+        t = cparse.strip_paren(e[2])
+        if t[0] == "id":
+            return ({t[1]}, {t[1]})
+        return _rw(e[2], by_ref)
+    if k == "un":
+        return _rw(e[2], by_ref)
+    if k == "cast":
+        return _rw(e[2], by_ref)
+    if k == "bin":
+        l = _rw(e[2], by_ref)
+        r = _rw(e[3], by_ref)
+        if e[1] not in ("&&", "||"):
+            if (l[1] & (r[0] | r[1])) or (r[1] & (l[0] | l[1])):
+                raise _Conflict()
+        return (l[0] | r[0], l[1] | r[1])
+    if k == "comma":
+        l = _rw(e[1], by_ref)
+        r = _rw(e[2], by_ref)
+        return (l[0] | r[0], l[1] | r[1])
+    if k == "cond":
+        c = _rw(e[1], by_ref)
+        a = _rw(e[2], by_ref)
+        b = _rw(e[3], by_ref)
+        return (c[0] | a[0] | b[0], c[1] | a[1] | b[1])
+    if k == "assign":
+        t = cparse.strip_paren(e[2])
+        r = _rw(e[3], by_ref)
+        if t[0] != "id":
+            l = _rw(e[2], by_ref)
+            return (l[0] | r[0], l[1] | r[1])
+        n = t[1]
+        if n in r[1]:
+            raise _Conflict()
+        reads = set(r[0])
+        if e[1] != "=":
+            reads.add(n)
+        return (reads, r[1] | {n})
+    if k == "call":
+        parts = [_rw(a, by_ref) for a in e[2]]
+        f = cparse.strip_paren(e[1])
+        if f[0] == "id" and f[1] in by_ref:
+            for idx in by_ref[f[1]]:
+                if idx < len(e[2]):
+                    a = cparse.strip_paren(e[2][idx])
+                    if a[0] == "id":
+                        parts[idx] = (parts[idx][0], parts[idx][1] | {a[1]})
+        for i in range(len(parts)):
+            for j in range(i + 1, len(parts)):
+                if (parts[i][1] & (parts[j][0] | parts[j][1])) or (parts[j][1] & (parts[i][0] | parts[i][1])):
+                    raise _Conflict()
+        rd, wr = set(), set()
+        for p in parts:
+            rd |= p[0]
+            wr |= p[1]
+        return (rd, wr)
+    if k == "stmtexpr":
+        rd, wr = set(), set()
+        for it in e[1]:
+            for fe in _full_exprs(it):
+                p = _rw(fe, by_ref)
+                rd |= p[0]
+                wr |= p[1]
+        return (rd, wr)
+    if k in ("index", "member", "arrow"):
+        return _rw(e[1], by_ref)
+    return (set(), set())
+
+
+def _full_exprs(s):
+    k = s[0]
+    if k == "expr":
+        yield s[1]
+    elif k == "decl":
+        for (_n, init, _t) in s[3]:
+            if init is not None:
+                yield init
+    elif k == "block":
+        for it in s[1]:
+            yield from _full_exprs(it)
+    elif k == "if":
+        yield s[1]
+        yield from _full_exprs(s[2])
+        if s[3] is not None:
+            yield from _full_exprs(s[3])
+    elif k == "for":
+        if s[1] is not None:
+            yield from _full_exprs(s[1])
+        if s[2] is not None:
+            yield s[2]
+        if s[3] is not None:
+            yield s[3]
+        yield from _full_exprs(s[4])
+    elif k in ("while", "switch"):
+        yield s[1]
+        yield from _full_exprs(s[2])
+    elif k == "do":
+        yield from _full_exprs(s[1])
+        yield s[2]
+    elif k == "return" and s[1] is not None:
+        yield s[1]
+    elif k in ("label",):
+        yield from _full_exprs(s[2])
+    elif k == "case":
+        yield from _full_exprs(s[2])
+    elif k == "default":
+        yield from _full_exprs(s[1])
+
+
+def has_unsequenced(body, routines=None):
+    by_ref = {}
+    for n, r in (routines or {}).items():
+        idx = [i for i, (pt, _pn) in enumerate(r.params) if pt == ("regref",)]
+        if idx:
+            by_ref[n] = idx
+    try:
+        for fe in _full_exprs(body):
+            _rw(fe, by_ref)
+            for sub in _all_nodes(fe):
+                if sub[0] == "stmtexpr":
+                    for it in sub[1]:
+                        for fe2 in _full_exprs(it):
+                            _rw(fe2, by_ref)
+    except _Conflict:
+        return True
+    return False
+
+
+def _all_nodes(e):
+    if isinstance(e, tuple) and e and isinstance(e[0], str):
+        yield e
+        for x in e[1:]:
+            if isinstance(x, (tuple, list)):
+                yield from _all_nodes(x)
+    elif isinstance(e, list):
+        for x in e:
+            yield from _all_nodes(x)
